@@ -61,6 +61,8 @@ func c06Cases(tier string) []SchedCase {
 	add(`{t{kidReq{id} name}}`, planOf("t.kidReq", "adderr", "t.name", "error"))
 	add(`{tReq{kidReq{id} req name}}`, planOf("tReq.kidReq", "adderr", "tReq.req", "error"))
 	add(`{ts{kidReq{id}}}`, planOf("ts[0].kidReq", "adderr", "ts[1].kidReq", "adderr"))
+	// one input-object variable (defaulted fields omitted) read by several concurrent fields
+	out = append(out, SchedCase{Case: Case{Op: Op{Text: `query($i:In){t{x:inp(in:$i) y:inp(in:$i)}}`, Vars: map[string]any{"i": map[string]any{"b": "x"}}}, Yield: true}, Name: "shared input-object variable"})
 	// two panics presented by gqlgen's own DefaultRecover (no recover function configured)
 	out = append(out, SchedCase{Case: Case{Op: Op{Text: `{t{name req}}`}, Plan: planOf("t.name", "panic", "t.req", "panic"), Yield: true, DefaultRecover: true}, Name: "{t{name req}} | both panic, default recover"})
 	out = append(out, SchedCase{Case: Case{Op: Op{Text: `{ts{name}}`}, Plan: planOf("ts[0].name", "panic", "ts[1].name", "panic"), Yield: true, DefaultRecover: true}, Name: "{ts{name}} | both elements panic, default recover"})
